@@ -370,7 +370,9 @@ func (e *Engine) ensureWF(st *State, base types.Type, twoLevel bool) {
 	if twoLevel {
 		bound = append(bound, i)
 	}
-	f := Forall(bound, pats, inv)
+	// only objects that existed at entry: rows of the initial heaps above the allocation frontier are
+	// what objects allocated later (also by callees: `ensures fresh(x) && x.f == ...`) are read from
+	f := Forall(bound, pats, Implies(Lt(o, st.alloc0), inv))
 	st.facts = append(st.facts, f)
 }
 
